@@ -114,7 +114,7 @@ def default_of(env, rec, a):
     """fresh default value per the class hierarchy, or MISS"""
     inh = rec.get("opts", {}).get("inherit", "none")
     first = rec["attrs"][0] is a
-    if first and inh in ("spec_sub_redefault", "plain_sub_redefault"):
+    if first and inh in ("spec_sub_redefault", "plain_sub_redefault", "spec_sub_reprepare_redefault"):
         return env.mk(G.REDEFAULT_SPEC[a["kind"]])
     spec = G.default_spec(a["kind"], a.get("default", "none"))
     if spec == ["MISSING"]:
